@@ -73,6 +73,6 @@ Section StmtLocal.
 
   Lemma stmt_on_decl_local : decl_local (stmt_on_decl enter_func visit) (fun _ => True).
   Proof.
-    split; [auto|]. intros s s' d _ _. destruct d as [p ex r [b|] cs|p ns|p]; simpl; auto.
+    split; [auto|]. intros s s' d _ _. destruct d as [p ex r [b|] cs|p ns|p b']; simpl; auto.
   Qed.
 End StmtLocal.
